@@ -64,6 +64,13 @@ def edits(name, tier):
         for a in m.names[:2 if tier == 'quick' else 6]:
             out.append(('child-added:' + a, lambda e, a=a: e.add_child(docs.build_api(docs.minimal(a)))))
         out.append(('first-child-removed', lambda e: e.remove(e.get_children(ordered=False)[0]) if e.get_children(ordered=False) else None))
+        # a child replaced by a child of another element type: insertion order and document order may then disagree
+        for a in m.names[:3 if tier == 'quick' else 8]:
+            def rep(e, a=a):
+                ch = e.get_children(ordered=False)
+                if ch and ch[0].name != a:
+                    e.replace_child(ch[0], docs.build_api(docs.minimal(a)))
+            out.append(('first-child-replaced-by:' + a, rep))
     return out
 
 
